@@ -435,14 +435,13 @@ impl<S: PageSize> Iterator for PageRangeInclusive<S> {
         if self.start <= self.end {
             let page = self.start;
 
-            // If the end of the inclusive range is the maximum page possible for size S,
-            // incrementing start until it is greater than the end will cause an integer overflow.
-            // So instead, in that case we decrement end rather than incrementing start.
-            let max_page_addr = VirtAddr::new(u64::MAX) - (S::SIZE - 1);
-            if self.start.start_address() < max_page_addr {
-                self.start += 1;
-            } else {
-                self.end -= 1;
+            // Step to the next page, jumping over the non-canonical gap if `start` is
+            // the last page of the lower half (a plain `+= 1` would panic there).
+            // If `start` is the maximum page possible for size S there is no next page;
+            // in that case we decrement end rather than incrementing start.
+            match VirtAddr::forward_checked_u64(self.start.start_address(), S::SIZE) {
+                Some(next) => self.start = Page::containing_address(next),
+                None => self.end -= 1,
             }
             Some(page)
         } else {
